@@ -120,6 +120,9 @@ type (
 		EscapedStringExt bool
 		// HashComments enables MySQL/MariaDB hash-like (#) comments.
 		HashComments bool
+		// ExecutableComments enables MySQL/MariaDB executable comments. e.g. /*!40101 SET NAMES utf8 */.
+		// See: https://dev.mysql.com/doc/refman/8.4/en/comments.html
+		ExecutableComments bool
 		// Enable the "GO" command as a delimiter.
 		GoCommand bool
 		// BeginEndTerminator is a T-SQL specific option that allows
@@ -256,7 +259,11 @@ Scan:
 			s.comment("--", "\n")
 		case r == '/' && s.pick() == '*':
 			s.next()
-			s.comment("/*", "*/")
+			// The content of an executable comment is code that
+			// is sent to the database, and not a comment.
+			if !s.ExecutableComments || s.pick() != '!' {
+				s.comment("/*", "*/")
+			}
 		case s.endterm != nil && s.endterm.MatchString(s.input[:s.pos]):
 			text = s.input[:s.pos]
 			break Scan
@@ -308,7 +315,7 @@ func (s *Scanner) addPos(p int) {
 }
 
 // escapedPrefix reports if the opening quote that was just consumed is preceded
-// by the E (or e) that starts a PostgreSQL escaped string constant, e.g. E'\''.
+// by the E (or e) that starts a PostgreSQL escaped string constant, e.g. E'\”.
 func (s *Scanner) escapedPrefix() bool {
 	i := s.pos - 2 // The byte before the opening quote.
 	if i < 0 || s.input[i] != 'E' && s.input[i] != 'e' {
